@@ -1,7 +1,7 @@
 #!/bin/bash
 # usage: tools/verify_seed.sh <ID> [seed-dir]   -- confirm a seeded change (suite green, demo fails with / passes without) and run our check on it
 id=$1; src=${2:-/tmp/seed-$id/_seed}
-dst=/verif/seeded/$id
+dst=/verif/${SEEDDIR:-seeded}/$id
 mkdir -p $dst
 [ -f $src/patch.diff ] && cp $src/patch.diff $src/demo.py $src/meta.json $dst/ 2>/dev/null
 d=$(mktemp -d /var/tmp/hv-seed.XXXXXX)
